@@ -10,7 +10,7 @@ import math
 import sys
 import warnings
 
-sys.path.insert(0, "/repo")
+sys.path.insert(0, __import__("os").environ.get("VERIF_REPO", "/repo"))
 import numpy as np  # noqa: E402
 
 import funsor  # noqa: E402
